@@ -11,7 +11,7 @@ COMMON_ASSUMPTIONS = [
 
 PROPS = {
     "C17": {
-        "units": ["ctors"],
+        "units": ["ctors", "commit"],
         "design_ref": "DESIGN.md section 7, C17",
         "technique": "contract-based deductive verification (Verus) of the real constructors, extracted mechanically on every run; iff-postconditions",
         "claim": "Every validating constructor (RangeParameters::init, RangeStatement::init, RangeWitness::init, CommitmentOpening::r_len/new, "
@@ -53,7 +53,7 @@ PROPS = {
         ],
     },
     "C09": {
-        "units": ["nonce", "verify"],
+        "units": ["nonce", "verify", "prove"],
         "design_ref": "DESIGN.md section 7, C09",
         "technique": "contract-based deductive verification (Verus): byte-level KDF contract for nonce(), per-component mask formula as loop invariants of the real verify(), position-wise postcondition",
         "claim": "nonce() is proved to be the documented keyed-Blake2b KDF (byte layout of key, label as persona, index encoding) and total on the verifier's arguments; "
@@ -93,6 +93,23 @@ PROPS = {
             "slice::chunks_exact and itertools::tuples are modelled by adapters with explicit cursor state (prelude/90_codec.rs); the pair adapter's next() is verified, its buffer semantics (odd leftover kept) is itertools' documented behaviour",
             "serde Serialize/Deserialize impls forward to to_bytes/from_bytes and are not extracted",
             "the pure round-trip lemmas (enc(decode(b)) == b, decode(enc(p)) == p for well-formed p) are listed in coverage.obligation_ids only once written; the zero-round finding of DESIGN section 8.2 belongs to them",
+        ],
+    },
+    "C06": {
+        "units": ["prove", "commit", "ctors"],
+        "design_ref": "DESIGN.md section 7, C06",
+        "technique": "contract-based deductive verification (Verus) of the real prove_with_rng and PedersenGens::commit; iff-contract between Ok and the witness-validity predicate, every `?` exit discharged",
+        "claim": "prove_with_rng is proved, for all statements built through the validating constructors and all witnesses built through RangeWitness::init, to return Ok only if "
+                 "the witness is valid (as many openings as commitments, equal extension degree, every value below 2^bits (v >> bits == 0, or bits == 64), every opening "
+                 "recomputing its commitment under the statement's generators, every promise <= its value, position-wise), and conversely every Err it returns on a valid witness "
+                 "with consistent Pedersen generators is a transcript rejection (ProofError::VerificationFailed: an identity point or a zero challenge); all other error and "
+                 "panic paths (index, overflow, nonce derivation, padding, split, zero y-power) are proved unreachable. 'Whenever it returns a proof that proof verifies' is the "
+                 "undecided algebraic part of C01.",
+        "assumptions": [
+            "curve25519-dalek multiscalar_mul returns the linear combination msm(scalars, points) and asserts equal lengths",
+            "the scalar field has no zero divisors and 1 != 0 (axioms ax_no_zero_div, ax_one_ne_zero): used to show y^n != 0",
+            "the labels \"alpha\", \"dL\", \"dR\", \"d\", \"eta\" are at most 16 bytes (axiom ax_label_lens about string literals)",
+            "completeness of the folding argument (an honest proof verifies) is not decided here",
         ],
     },
 }
